@@ -634,12 +634,18 @@ def _stack(
                 key: stack_fn(key, values, is_not_init, is_tensor)
                 for key, (values, is_not_init, is_tensor) in out.items()
             }
+            names = None
+            if list_of_tensordicts[0]._has_names():
+                # the dim names travel with their dims; the new stack dim is unnamed
+                names = list(list_of_tensordicts[0].names)
+                names.insert(dim, None)
             result = clz._new_unsafe(
                 out,
                 batch_size=LazyStackedTensorDict._compute_batch_size(
                     batch_size, dim, len(list_of_tensordicts)
                 ),
                 device=device,
+                names=names,
             )
             if is_tc:
                 return td_types[0]._from_tensordict(result)
